@@ -833,14 +833,14 @@ func randCfg(r *rand.Rand, p sysProg, seg uint64) runCfg {
 	outInit := p[len(p)-1].Init
 	c := runCfg{Prod: r.Intn(3) != 0, Seg: seg, Workers: 1 + r.Intn(4)}
 	c.Start = int64(outInit) + int64(r.Intn(14))
-	// mostly start at or above the first store (a production range entirely below every store hangs: known finding D15)
+	// half of the time start at or above the first store (ranges below every store were the hang D15, repaired by 9cc62b1c)
 	var lowStore uint64 = 1 << 62
 	for _, m := range p {
 		if m.Kind == "store" && m.Init < lowStore {
 			lowStore = m.Init
 		}
 	}
-	if lowStore < 1<<62 && uint64(c.Start) < lowStore && r.Intn(8) != 0 {
+	if lowStore < 1<<62 && uint64(c.Start) < lowStore && r.Intn(2) != 0 {
 		c.Start = int64(lowStore) + int64(r.Intn(8))
 	}
 	c.Stop = uint64(c.Start) + 1 + uint64(r.Intn(22))
